@@ -359,6 +359,41 @@ def run(ctx):
             ds = [d for d in ds if d not in ("PHOTOS",)]
             lines.append([rng.choice(["1.0", "0.25", ".5", "2E-3"]), ds])
         check_file(ctx, m, lines)
+    # the question asked with only a few frames left below the interpreter's recursion limit (deep inside the caller's own recursion): the library's
+    # RecursionError is not judged; an answer is -- and so is every later answer for the same name from an ordinary depth (the function is memoised)
+    import sys  # noqa: PLC0415
+
+    def deep(n, fn):
+        return fn() if n <= 0 else deep(n - 1, fn)
+
+    f_, cur = sys._getframe(), 0
+    while f_ is not None:
+        cur, f_ = cur + 1, f_.f_back
+    sample = [n for n in mine_e if names.kind(n) == "has-antiparticle"][:6] + [n for n in mine_e if names.kind(n) == "self-conjugate"][:2]
+    for n in sample:
+        want = names.conj(n)
+        for left in (2, 3, 4, 5, 6, 8, 11, 15, 30):
+            if cached:
+                ccn.cache_clear()
+            wit = {"kind": "name", "name": n, "pdg_name": False, "asked_with_frames_left": left}
+            ctx.case({"n": n, "frames_left": left}, nontrivial=True, workload="few-frames-left")
+            ctx.hit("asked-with-few-frames-left")
+            try:
+                got = deep(max(0, sys.getrecursionlimit() - cur - left), lambda n=n: ccn(n))
+            except RecursionError:
+                got = None
+                ctx.hit("asked-with-few-frames-left:recursion-error:not-judged")
+            contracts.drain()
+            ctx.mon("C04.direct.few-frames-left")
+            if got is not None and got != want:
+                ctx.violate("conj-name:wrong-answer-instead-of-a-recursion-error", f"conj({n!r}) asked with {left} frames left = {got!r}, expected {want!r} (or RecursionError)", wit)
+            later = ccn(n)
+            contracts.drain()
+            if later != want:
+                ctx.violate("conj-name:wrong-for-good-after-a-call-near-the-recursion-limit", f"conj({n!r}) = {later!r} at an ordinary depth after it had been asked with {left} frames left; expected {want!r}", wit)
+                break
+    if cached:
+        ccn.cache_clear()
     # the caller's own table of ChargeConj pairs handed to the .dec conjugation layer directly
     for i in range(ctx.pick(60, 600)):
         k = rng.choice([1, 1, 2, 3, 5])
@@ -397,6 +432,8 @@ def replay(ctx, w):
         check_name(ctx, w["name"], w["pdg_name"], "replay")
     elif w["kind"] == "mode":
         check_mode(ctx, w["fs"], w["bf"], w["meta"], w["pdg_name"])
+    elif w["kind"] == "name" and "asked_with_frames_left" in w:
+        print("replay: re-run the check; the witness names the name and the number of frames left:", w)
     elif w["kind"] == "user-table":
         check_user_table(ctx, [tuple(x) for x in w["pairs"]], w["others"])
     else:
